@@ -177,7 +177,7 @@ def run_case(case, tl_max):
 
 
 # ---- levels: the guard at file / type / variant / field / struct-variant-field level, through parser::parse ------------------
-LEVELS = ["file", "type", "variant", "field", "variant_field"]
+LEVELS = ["file", "type", "variant", "field", "variant_field", "variant_and_field"]
 LEVEL_TREES = [("os",), ("not", (("os",),)), ("any", (("os",), ("os",))), ("all", (("not", (("os",),)), ("os",))), ("all", (("os",), ("not", (("os",),)))), ("feat",)]
 SPELLINGS = {"rustfmt": lambda t: t, "compact": lambda t: t.replace(" = ", "=").replace(", ", ","), "spread": lambda t: t.replace(" = ", "  =\n    ")}
 
@@ -197,11 +197,17 @@ def level_source(level, tree, spelling, names=None):
         return "#[typeshare]\npub enum Holder { Keep, %s Guarded }\n" % g
     if level == "field":
         return "#[typeshare]\npub struct Holder { pub keep: u32, %s pub guarded: u32 }\n" % g
+    if level == "variant_and_field":
+        # the variant carries a guard of its own (OS name `osv`): the field is judged by its own attributes only
+        vg = '#[cfg(target_os = "%s")]' % ("osv" if names is None else names[-1])
+        return '#[typeshare]\n#[serde(tag = "t", content = "c")]\npub enum Holder { Keep(u32), %s V { keep: u32, %s guarded: u32 } }\n' % (vg, g)
     return '#[typeshare]\n#[serde(tag = "t", content = "c")]\npub enum Holder { Keep(u32), V { keep: u32, %s guarded: u32 } }\n' % g
 
 
 def level_present(level, d):
     """is the guarded thing in the (JSON-like) summary?  d: {'structs': [(name, [fields])], 'enums': [(name, [(variant, fields|None)])]}"""
+    if level == "variant_and_field":
+        level = "variant_field"
     if level in ("file", "type"):
         return any(n == "Guarded" for n, _ in d["structs"])
     if level == "variant":
@@ -223,11 +229,12 @@ def run_level(case, tl_max):
     for tl in range(1, tl_max + 1):
         names = [z3.BitVec("n%d" % i, 32) for i in range(nos)]
         tg = [z3.BitVec("t%d" % i, 32) for i in range(tl)]
+        osv = z3.BitVec("nv", 32)
 
         def plant(I):
-            for x in names + tg:
+            for x in names + tg + [osv]:
                 I.assume(z3.And(z3.UGE(x, 97), z3.ULE(x, 100)))
-            return {"os%d" % i: [names[i]] for i in range(nos)}
+            return dict({"os%d" % i: [names[i]] for i in range(nos)}, osv=[osv])
         I = None
         for I, kind, pd, pc in explore_source(src, plant, target_os=[RString([t]) for t in tg], via_parse=True, file_path="src/lib.rs"):
             res["paths"] += 1
@@ -238,10 +245,12 @@ def run_level(case, tl_max):
             present = level_present(level, {"structs": [(a, b) for a, b in got["structs"]], "enums": [(a, b) for a, b in got["enums"]]})
             in_t = lambda x: z3.Or([x == t for t in tg])
             spec = z3.And(z3.Not(z3.Or([in_t(names[i]) for i in rej])) if rej else z3.BoolVal(True), z3.Or([in_t(names[i]) for i in acc]) if acc else z3.BoolVal(True))
+            if level == "variant_and_field":
+                spec = z3.And(in_t(osv), spec)
             m = I.sat_model(z3.BoolVal(bool(present)) != spec)
             if m is not None:
                 ev = lambda x: chr(m.eval(x, model_completion=True).as_long())
-                res["violations"].append({"kind": "wrong-decision", "names": [ev(x) for x in names], "targets": [ev(x) for x in tg], "got": bool(present), "tl": tl})
+                res["violations"].append({"kind": "wrong-decision", "names": [ev(x) for x in names] + ([ev(osv)] if level == "variant_and_field" else []), "targets": [ev(x) for x in tg], "got": bool(present), "tl": tl})
         if I is not None:
             res["queries"] += I.queries; res["solver_s"] += I.solver_s
             res["funcs"] = sorted(set(res["funcs"]) | set(I.called)); res["models"] = sorted(set(res["models"]) | set(I.models_hit)); res["notes"] = list(I.notes)
